@@ -298,7 +298,7 @@ def check_stream(ctx, text, text_align, meta=None, tier="quick"):
     # flips that bring a caption displayed earlier back on screen (no ENM since): exercises the EOC memory swap
     ctx.count("class:popon-no-enm-swap")
     ctx.count("class:popon-no-enm-swap-flips", n_swap)
-  if meta is not None:
+  if meta is not None and "captions" in meta:
     selfcheck(case, meta)
 
   # ---- run the reader --------------------------------------------------------------------------------------------
@@ -314,7 +314,11 @@ def check_stream(ctx, text, text_align, meta=None, tier="quick"):
     ctx.sample({"scc": text, "text_align": text_align,
                 "paragraphs": [[q.pid, str(q.begin), str(q.end), [(r, "".join(s[0] for s in sp)) for r, sp in q.rows]] for q in paras]})
 
+  directed = (meta or {}).get("directed")
+
   def viol(mech, what, finding=None):
+    if finding is None and directed is not None and mech in directed[1]:
+      finding = directed[0]       # this fixed input, this mechanism: the listed finding; anything else it shows is reported
     ctx.violation(mech, what, payload, finding=finding)
 
   def timed(mech, what, observed, w, lo_off=0):
@@ -727,7 +731,35 @@ def selfcheck(case, meta):
 
 # ---- driver -----------------------------------------------------------------------------------------------------
 
+def _scc_line(frame, items):
+  """items: control code values (transmitted doubled) or strings (character pairs) -> one SCC line at 00:00:ss:ff."""
+  ws = []
+  for it in items:
+    if isinstance(it, int):
+      ws += [it, it]
+    else:
+      it = it if len(it) % 2 == 0 else it + " "
+      ws += [(ord(it[k]) << 8) | ord(it[k + 1]) for k in range(0, len(it), 2)]
+  return "00:00:%02d:%02d\t%s" % (frame // 30, frame % 30, " ".join("%02x%02x" % (G.parity(w >> 8), G.parity(w & 0xFF)) for w in ws))
+
+
+def directed_streams():
+  """Fixed inputs of the known finding F-SCC-PAC-ONTO-WRITTEN-ROW: a pop-on caption whose last PAC goes back onto a row
+  written earlier in the same caption. -> [(name, scc text, mechanisms that belong to the finding)]"""
+  head = "Scenarist_SCC V1.0\n\n"
+  tail = "\n\n" + _scc_line(200, [G.CTL["EDM"]]) + "\n"
+  gap = head + _scc_line(30, [G.CTL["RCL"], G.CTL["ENM"], G.pac(14, indent=0), "ABCD", G.pac(15, indent=0), "EFGH", G.pac(14, indent=8), "IJ",
+                              G.CTL["EOC"]]) + tail
+  pen = head + _scc_line(30, [G.CTL["RCL"], G.CTL["ENM"], G.pac(14, indent=0, underline=True), "ABCD", G.pac(15, indent=0), "EFGH",
+                              G.pac(14, indent=4), "IJ", G.CTL["EOC"]]) + tail
+  return [("indent-beyond-the-text", gap, ("settled-text:pop",)), ("pac-attributes-on-continued-row", pen, ("settled-style:underline:pop",))]
+
+
 def run(ctx, params):
+  if params.get("bundled"):
+    for name, text, mechs in directed_streams():
+      ctx.count("directed:pac-onto-written-row")
+      check_stream(ctx, text, None, {"directed": ("F-SCC-PAC-ONTO-WRITTEN-ROW", mechs)}, ctx.tier)
   if params.get("bundled"):
     for name in sorted(os.listdir(BUNDLED_DIR)):
       if name.endswith(".scc"):
